@@ -1,11 +1,11 @@
-\* generated by spec/getter/gen_cfgs.sh -- MC_quick_single
+\* generated by spec/getter/gen_cfgs.sh -- MC_quick_direct
 SPECIFICATION Spec
 CONSTANTS
   ReqTypes <- TypesAll
   NItems = 1
   MaxAnswers = 2
-  Chains <- ChainsAll
-  NPeers = 3
+  Chains <- ChainsDirect
+  NPeers = 2
   BlockStores <- StoresAll
   ClearOnFail = TRUE
   FreshDecode = FALSE
